@@ -7,6 +7,11 @@ let run_job (job : Sx.t) : string =
   | "builder" -> Jbuilder.job_builder job
   | "literal" -> Jlit.job_literal job
   | "sem" -> Jprog.job_sem job
+  | "scan" -> Jfront.job_scan job
+  | "pretty" -> Jfront.job_pretty job
+  | "consts" -> Jconsts.job_consts job
+  | "panicrec" -> Jpanic.job_panicrec job
+  | "panicparse" -> Jpanic.job_panicparse job
   | "sizes" -> Jprog.job_sizes job
   | "bristol-out" -> Jbristol.job_bristol_out job
   | "bristol-in" -> Jbristol.job_bristol_in job
